@@ -25,7 +25,7 @@ from .tape import Recorder, Tape
 def gen_thread_program(rng, max_threads=3, size="small"):
     """A ProgGen program with spawn nodes. Returns (program, number of threads it starts)."""
     g = gen.ProgGen(rng, max_depth=3, max_nodes=6 if size == "small" else 16, value_depth=0, allow_remote=False, allow_tb=False,
-                    act_styles=["with", "ctx_finish", "run_finish", "start_task"], msg_styles=["log_message", "action.log"], fail_p=0.25,
+                    act_styles=["with", "ctx_finish", "run_finish", "start_task"], msg_styles=["log_message", "action.log", "stdlib"], fail_p=0.25,
                     allow_cross=False)
     spawned = [0]
 
